@@ -168,6 +168,10 @@ class StmtMixin:
                     return
                 if info is not None and attr in info.properties:
                     raise PyRaise(VExc("AttributeError"))
+        ph = self.uni.prop_hooks.get(f"{obj.cls}.{attr}")
+        if ph is not None:
+            ph(self, obj, [v], {}, st, fr)
+            return
         if attr in self.uni.callbacks:
             # the stored callable is identified with the declared callback
             self.uni.note_assumption(
